@@ -31,6 +31,11 @@ type instPlan struct {
 	TTL    int  `json:"ttl"`
 	Secret int  `json:"secret"`
 	Twin   bool `json:"twin"` // private key of instance 0
+	// Rotated: this instance is instance 0 after a restart with the next generation of its
+	// secret: same private key, TokenTTL and mode, the HmacKey differing in its last byte only
+	// (HmacKey unset again if instance 0 has none).
+	Rotated bool   `json:"rotated"`
+	KeyVar  keyVar `json:"hmac_key"`
 }
 
 type mintPlan struct {
@@ -65,6 +70,7 @@ type showPlan struct {
 }
 
 type instScenario struct {
+	Keys    keyFamily  `json:"hmac_keys"` // shape of the application-provided HmacKeys, see secrets_test.go
 	Inst    []instPlan `json:"instances"`
 	Clients [2]int     `json:"client_key"`
 	Mints   []mintPlan `json:"mints"`
@@ -77,12 +83,15 @@ func drawInstScenario(rt *rapid.T) instScenario {
 	n := rapid.IntRange(2, 4).Draw(rt, "instances")
 	for i := 0; i < n; i++ {
 		sc.Inst = append(sc.Inst, instPlan{
-			Key:    rapid.SampledFrom([]int{0, 0, 0, 1, 2, 3}).Draw(rt, "key"),
-			TTL:    rapid.IntRange(0, len(ttlChoices)-1).Draw(rt, "ttl"),
-			Secret: int(rapid.SampledFrom([]secretMode{secretOwn, secretShared, secretUnset, secretUnset}).Draw(rt, "secret")),
-			Twin:   i > 0 && rapid.IntRange(0, 3).Draw(rt, "twin") == 0,
+			Key:     rapid.SampledFrom([]int{0, 0, 0, 1, 2, 3}).Draw(rt, "key"),
+			TTL:     rapid.IntRange(0, len(ttlChoices)-1).Draw(rt, "ttl"),
+			Secret:  int(rapid.SampledFrom([]secretMode{secretOwn, secretShared, secretUnset, secretUnset}).Draw(rt, "secret")),
+			Twin:    i > 0 && rapid.IntRange(0, 3).Draw(rt, "twin") == 0,
+			Rotated: i > 0 && rapid.IntRange(0, 4).Draw(rt, "rotated") == 0,
+			KeyVar:  drawKeyVar(rt),
 		})
 	}
+	sc.Keys = drawKeyFamily(rt)
 	for i := range sc.Clients {
 		sc.Clients[i] = rapid.SampledFrom([]int{0, 0, 0, 1, 2, 3}).Draw(rt, "clientkey")
 	}
@@ -139,13 +148,31 @@ func TestServerInstances(t *testing.T) {
 		sc := drawInstScenario(rt)
 		idents := []*keys.Identity{keys.Get(keys.Types[sc.Clients[0]], 0), keys.Get(keys.Types[sc.Clients[1]], 1)}
 		conf := make([]srvConf, len(sc.Inst))
+		modes := make([]secretMode, len(sc.Inst))
+		vars := make([]keyVar, len(sc.Inst))
+		rotated := make([]bool, len(sc.Inst))
 		for i, ip := range sc.Inst {
-			conf[i] = srvConf{keyType: keys.Types[ip.Key], ttl: ttlChoices[ip.TTL], secret: secretMode(ip.Secret), ident: i}
+			modes[i], vars[i], rotated[i] = secretMode(ip.Secret), ip.KeyVar, ip.Rotated
+		}
+		hmacKeys, keyHow := sc.Keys.keysFor(modes, vars, rotated)
+		var fp, labels []string
+		for i, ip := range sc.Inst {
+			conf[i] = srvConf{keyType: keys.Types[ip.Key], ttl: ttlChoices[ip.TTL], secret: modes[i], ident: i, hmac: hmacKeys[i]}
 			if ip.Twin {
 				conf[i].keyType, conf[i].ident = conf[0].keyType, conf[0].ident
 			}
+			if ip.Rotated {
+				conf[i] = conf[0]
+				conf[i].hmac, conf[i].secret = hmacKeys[i], secretOwn
+				if hmacKeys[i] == nil {
+					conf[i].secret = secretUnset
+				}
+				labels = append(labels, "inst:"+keyHow[i])
+			}
+			if hmacKeys[i] != nil {
+				labels = append(labels, "hmackey:len"+keyLenClass(len(hmacKeys[i])), "hmackey:"+keyHow[i])
+			}
 		}
-		var fp, labels []string
 		nontrivial := false
 		hx.Bubble(t, rt, func() {
 			w := newWorld(rt, conf, idents)
@@ -231,6 +258,11 @@ func TestServerInstances(t *testing.T) {
 						labels = append(labels, "xinst:"+secretNames[m.srv.secret]+"->"+secretNames[target.secret])
 						if target.ident == m.srv.ident {
 							labels = append(labels, "xinst:same-private-key")
+						}
+						if rel == "foreign" && m.srv.hmacKey != nil && target.hmacKey != nil {
+							pc := keyPairClass(m.srv.hmacKey, target.hmacKey)
+							desc += ":" + pc
+							labels = append(labels, "xkey:"+pc, "xkey:len"+keyLenClass(len(m.srv.hmacKey))+"->len"+keyLenClass(len(target.hmacKey)))
 						}
 					}
 				}
